@@ -19,6 +19,20 @@ CHECKS = {
          "Logic/shift/rotate instructions single-stepped and compared bit for bit (result, N,Z,V,C, untouched H,U,UI,I, all other state) with the reference model. The SHAL overflow rule deviates in the emulator and is locked by unit tests: recorded as an open known finding and matched through a quirk variant of the reference, so every other aspect of those cases is still checked.", "2 C03"),
  "C04": ("differential testing against a reference model: exhaustive (operand byte, bit number, C) per form, all operand / bit-number / address registers, all bit-number register values + proptest-generated placement",
          "All 14 bit instructions in all operand forms are single-stepped; the complete post-state is compared, so 'exactly the addressed bit / exactly that flag, nothing else' is decided by a full comparison rather than spot checks. The 4096-triple core is enumerated for each of the 54 forms.", "2 C04"),
+ "C05": ("differential + history testing: complete Bcc truth table (16 conditions x 256 CCR x every even d:8 displacement), enumerated jump/call/return kinds x CCR x register, proptest-generated placements, generated call-tree programs in lockstep with a reference model and a shadow call stack",
+         "Single steps of every branch/jump/call/return form are compared with the reference's full post-state; generated call-tree programs (BSR/JSR mixes, depth up to 8, SP with arbitrary upper byte, stacks in RAM and DRAM) run in lockstep with the reference while a shadow call stack checks that every RTS resumes right after its call with SP restored.", "2 C05"),
+ "C06": ("differential + round-trip history testing: TRAPA #1-3 x all CCR, interrupt acceptance for vectors 1-63 x all CCR with I clear, RTE on crafted frames, proptest-generated nested entry/return histories with a shadow context stack",
+         "Exception entry is exercised through TRAPA and through the real interrupt controller (request + the run loop's poll, via the hook); frames, SP, I, PC are compared with the reference and every entry;RTE pair must restore registers, CCR and PC exactly (round trip, independent of the reference's frame layout), to nesting depth 16.", "2 C06"),
+ "C07": ("enumeration against an independent decode table: all 65,536 first words, all second words per multi-word prefix, third words of the d:24 forms, reserved bytes; three-way oracle (implemented -> executed exactly / valid-unimplemented -> error / undefined -> unconstrained)",
+         "The decode table (exact encodings from the manual's instruction-code table) is the independent artefact; every first word and every second word after each multi-word prefix is executed on the real Cpu under generated register files and compared: implemented encodings must execute as that instruction with its length (full-state comparison), valid encodings of unimplemented instructions must return an error. The table itself is self-tested against the 289 encodings of the unit tests and the printf example's trace.", "2 C07"),
+ "C08": ("differential + metamorphic testing on address-tagged memory: every memory-operand form x wrap classes x all 256 upper bytes, all @aa:8/@aa:16 values, every @@aa:8 vector; upper-byte invariance checked emulator-against-emulator",
+         "Memory holds a hash of each byte's address, so which location an instruction accessed is observable; effective addresses are generated to cross 0 / 2^24 / 2^32 and to sit at region edges and in inaccessible holes. The reference computes the architectural EA; additionally the same case is re-run with another upper byte in the address register and both emulator runs must agree. STC.W CCR,@-ERd is an open known finding (unit test asserts the post-increment behaviour).", "2 C08"),
+ "C09": ("exhaustive enumeration of all 2^24 addresses (classification + write/read-back under three address hashes) and model-based history testing of byte/word/long accesses through real MOV instructions",
+         "The finite address map is enumerated completely through Bus::read/Bus::write (plus boundary/strided addresses to 2^32); aliasing is excluded by writing an address hash to every storage byte and reading all back; multi-byte composition and error behaviour at all ten region edges are checked by generated histories against a byte-map model.", "2 C09"),
+ "C19": ("exhaustive enumeration of the per-area setting space against the cost rule of the statement, with sampled + one-bit-flip settings of all other areas for independence",
+         "Every (area, width, access-state, wait field, DRAM select, kind, count, address position) tuple is evaluated through calc_state and calc_state_with_addr and compared with a 10-line transcription of the stated rule; each tuple is repeated under all-zero, all-one, random and one-bit-flipped settings of the other areas.", "2 C19"),
+ "C20": ("differential testing of the returned state count against the manual's advanced-mode cycle table x cost rule, every instruction form x placement x bus settings constructed to make every area's cost distinct",
+         "For every implemented form the charge returned by a single step must equal sum(count x cost(kind, address actually accessed)) with counts from an independently transcribed cycle table; settings are constructed so that on-chip RAM, area 0 and area 2 differ for byte and word cycles, otherwise a wrong kind/count/address is invisible (the reason the unit tests cannot see it).", "2 C20"),
 }
 ALL = ["C%02d" % i for i in range(1, 21)]
 manifest = {
